@@ -98,7 +98,8 @@ class Prop(PropBase):
                 for sgn in (1, -1):
                     pp += [[rng.randrange(len(entries)), sgn * (2 ** k - rng.random())] for _ in range(3)]
                 k += 1
-            yield {"op": "polyco", "coherent": coherent, "pp": pp, "f0": f0, "span": span, "ncoef": ncoef, "entries": entries, "queries": queries}
+            subset = sorted(rng.sample(range(len(entries)), rng.randint(1, len(entries)))) if len(entries) > 1 else [0]
+            yield {"op": "polyco", "coherent": coherent, "pp": pp, "subset": subset, "f0": f0, "span": span, "ncoef": ncoef, "entries": entries, "queries": queries}
 
     def _text(self, case):
         lines = []
@@ -163,6 +164,17 @@ class Prop(PropBase):
                 q["err"] = err_name(e)
             res.append(q)
         out["q"] = res
+        # a subset of the entries taken by indexing the table (rows in sorted order), after p.intervals was computed
+        try:
+            sub = case.get("subset")
+            if sub and len(sub) <= len(p):
+                q = p[np.array(sub)]
+                out["sub_intervals"] = [[X.rat(X.time_offset_s(a, t_first)), X.rat(X.time_offset_s(b, t_first))] for a, b in q.intervals]
+                tq = q["tmid"][len(q) // 2] + 0.75 * u.s
+                out["sub_same"] = bool(q(tq) == p(tq)) and bool(q.f0(tq) == p.f0(tq))
+                out["sub_n"] = len(q)
+        except Exception as e:
+            out["sub_err"] = err_name(e)
         # phasepol scan: many reference times, worst deviation from the prediction at x = +-0.37 s
         worst = [0.0, None, None]
         try:
@@ -320,6 +332,21 @@ class Prop(PropBase):
             return f"array with a time outside every span: {code.get('mixed_array')} instead of ValueError"
         if code.get("array_multi") is not True or code.get("array_f0") is not True:
             return f"array-valued call over several entries differs from scalar calls ({code.get('array_multi')}, {code.get('array_f0')})"
+        if "sub_err" in code:
+            return f"indexing a subset of the entries raised {code['sub_err']}"
+        if "sub_intervals" in code:
+            sub_spans = sorted((ents[i][0] - ents[i][1] / 2, ents[i][0] + ents[i][1] / 2) for i in case["subset"])
+            sm = []
+            for s_, e_ in sub_spans:
+                if sm and s_ <= sm[-1][1] + F(1, 1000):
+                    sm[-1][1] = max(sm[-1][1], e_)
+                else:
+                    sm.append([s_, e_])
+            got = code["sub_intervals"]
+            if len(got) != len(sm) or any(abs(F(a) - m[0]) > F(1, 10**6) or abs(F(b) - m[1]) > F(1, 10**6) for (a, b), m in zip(got, sm)):
+                return f"intervals of the subset {case['subset']} are {[(float(F(a)), float(F(b))) for a, b in got]}, expected {[(float(a), float(b)) for a, b in sm]}"
+            if not code.get("sub_same"):
+                return "a predictor restricted to a subset of entries predicts differently inside one of its entries"
         f0 = F(case["f0"])
         w = code.get("pp_worst")
         if w and w[1] is not None:
